@@ -129,12 +129,16 @@ func c09deep(c *Ctx, g *c07gen) {
 	r := c.R
 	for _, depth := range []int{7, 8, 9, 16, 17, 32, 33, 65} {
 		for k := 0; k < c.N(1, 6); k++ {
-			t := c07chain(r, g, depth, k%3)
-			c09nodesCase(c, t, t.Clone(), fmt.Sprintf("deep-%d identical", depth))
-			c09nodesCase(c, t, T(t.Tag, t.Value, t.Ptr, g.node(1)), fmt.Sprintf("deep-%d left", depth))
-			c09nodesCase(c, T(t.Tag, t.Value, t.Ptr, g.node(1)), t, fmt.Sprintf("deep-%d right", depth))
-			c09sliceCase(c, "eq", t.Kids, []*TNode{g.node(1)}, fmt.Sprintf("deep-%d", depth))
-			c09sliceCase(c, "never", []*TNode{g.node(1)}, t.Kids, fmt.Sprintf("deep-%d", depth))
+			t, d := c07chain(r, g, depth, k%3), depth
+			if !c07bounded(c, fmt.Sprintf("MergeNodes / MergeNodeSlices on a tree with %d levels", depth), t, func() {
+				c09nodesCase(c, t, t.Clone(), fmt.Sprintf("deep-%d identical", d))
+				c09nodesCase(c, t, T(t.Tag, t.Value, t.Ptr, g.node(1)), fmt.Sprintf("deep-%d left", d))
+				c09nodesCase(c, T(t.Tag, t.Value, t.Ptr, g.node(1)), t, fmt.Sprintf("deep-%d right", d))
+				c09sliceCase(c, "eq", t.Kids, []*TNode{g.node(1)}, fmt.Sprintf("deep-%d", d))
+				c09sliceCase(c, "never", []*TNode{g.node(1)}, t.Kids, fmt.Sprintf("deep-%d", d))
+			}) {
+				return
+			}
 		}
 	}
 }
